@@ -2126,9 +2126,9 @@ def laplacian_regularizer(weights, lattice_sizes, l1=0.0, l2=0.0):
     lattice_sizes = lattice_sizes + [int(weights.shape[1])]
     rank += 1
     if l1:
-      l1 = l1 + [0.0]
+      l1 = list(l1) + [0.0]
     if l2:
-      l2 = l2 + [0.0]
+      l2 = list(l2) + [0.0]
   weights = tf.reshape(weights, shape=lattice_sizes)
 
   result = tf.constant(0.0, shape=[], dtype=weights.dtype)
@@ -2205,9 +2205,9 @@ def torsion_regularizer(weights, lattice_sizes, l1=0.0, l2=0.0):
     lattice_sizes = lattice_sizes + [int(weights.shape[1])]
     rank += 1
     if l1:
-      l1 = l1 + [0.0]
+      l1 = list(l1) + [0.0]
     if l2:
-      l2 = l2 + [0.0]
+      l2 = list(l2) + [0.0]
   weights = tf.reshape(weights, shape=lattice_sizes)
 
   result = tf.constant(0.0, shape=[], dtype=weights.dtype)
